@@ -1,4 +1,5 @@
 import BoxoModel.C25.Model
+import BoxoModel.C26.Time
 /-! Line-protocol driver for C25. One op kind:
   val k=v …   (see harness/cmd/c25/main.go for the fields; unknown fields are ignored)
 The crypto / codec parameters of the model are instantiated with the verdicts observed by the
@@ -94,8 +95,9 @@ def stepLine (line : String) : String :=
                        pubKey := ← parseHex (g "pk"), sigV2 := ← parseHex (g "s2"), data := ← parseHex (g "data"),
                        size := ← (g "size").toNat? })
       let decode : Bytes → Option Node := fun _ => node
-      let eol : Option Int := (g "eol").toInt?
-      let parseTime : Bytes → Option Int := fun _ => eol
+      -- RFC3339 parsing is the model's (BoxoModel/C26/Time.lean), applied to the signed Validity bytes;
+      -- the generator's `eol=` verdict is no longer used
+      let parseTime : Bytes → Option Int := C26.Time.parseTime
       let pathS := g "path"
       let parsePath : Bytes → Option String := fun _ => if pathS == "bad" || pathS == "-" then none else some pathS
       let C : Crypto := {
